@@ -57,15 +57,41 @@ import (
 // ---------------------------------------------------------------------------------------------
 // configurations
 
+// c53variant is one concrete request shape of a logical client. All variants of one client
+// carry the same key material for the rule's AccessSignConf and differ only in attributes that
+// are NOT part of the key.
+type c53variant struct {
+	name   string
+	target string // request-target on the wire
+	host   string
+	hdrs   string // raw header lines after Host, each ending in \r\n
+	cip    net.IP // Request.ClientAddr
+	cport  int
+	rip    net.IP // Session.RemoteAddr / Request.RemoteAddr (socket peer); nil = same as ClientAddr
+	rport  int
+	sid    string // Session.SessionId (connection id)
+	raw    string
+}
+
+type c53client struct {
+	name string
+	vars []c53variant
+}
+
 type c53cfg struct {
 	name      string
+	part      string // "time": timing space, one request shape per key; "key": key derivation space
 	threshold int32
 	check     int64  // CheckPeriod, seconds
 	stay      int64  // StayPeriod, seconds
-	sign      string // what makes the key: header | clientip | cookie | query
+	sign      string // name of the key recipe
+	signJSON  string // AccessSignConf members
 	action    string // CLOSE | FINISH | REQ_HEADER_SET
 	product   string // product the rule is filed under: "pA" or "global"
 	depth     int    // arrivals per timeline
+	offs      []int64
+	clients   []c53client
+	pairs     [][2]int // flattened (client, variant)
 }
 
 const c53reqProduct = "pA"
@@ -74,19 +100,6 @@ const c53markHeader = "X-Bfe-Prison"
 func (c *c53cfg) ruleJSON(version string, withRule bool) string {
 	if !withRule {
 		return fmt.Sprintf(`{"version": %q, "config": {}}`, version)
-	}
-	var sign string
-	switch c.sign {
-	case "header":
-		sign = `"header": ["X-Key"]`
-	case "clientip":
-		sign = `"UseClientIP": true`
-	case "cookie":
-		sign = `"Cookie": ["UID"]`
-	case "query":
-		sign = `"query": ["k"]`
-	default:
-		panic("c53: sign " + c.sign)
 	}
 	params := `[]`
 	if c.action == "REQ_HEADER_SET" {
@@ -107,19 +120,284 @@ func (c *c53cfg) ruleJSON(version string, withRule bool) string {
    "prisonDictSize": 1000
   }]
  }
-}`, version, c.product, sign, c.action, params, c.check, c.stay, c.threshold)
+}`, version, c.product, c.signJSON, c.action, params, c.check, c.stay, c.threshold)
+}
+
+func c53ip(a, b, c, d byte) net.IP { return net.IPv4(a, b, c, d).To4() }
+
+var c53proxyIP = c53ip(192, 168, 0, 7)
+
+// c53mk builds a variant from the neutral request (GET /p, Host example.org, client
+// 10.0.0.9:40001 connected directly, connection id conn-1) and the given modifications.
+func c53mk(name string, mods ...func(v *c53variant)) c53variant {
+	v := c53variant{name: name, target: "/p", host: "example.org", cip: c53ip(10, 0, 0, 9), cport: 40001, sid: "conn-1"}
+	for _, m := range mods {
+		m(&v)
+	}
+	return v
+}
+
+// modifications that never touch key material of the recipe they are used with
+func c53otherClient(v *c53variant) { v.cip, v.cport, v.sid = c53ip(10, 0, 0, 77), 41000, "conn-7" }
+func c53newConn(v *c53variant)     { v.cport, v.sid = v.cport+1, "conn-2" }
+func c53viaProxy(v *c53variant)    { v.rip, v.rport = c53proxyIP, 5555 }
+
+// c53timeClients: the two keys A and B of the timing space, one request shape each.
+func c53timeClients(sign string) (string, []c53client) {
+	var js string
+	var cl []c53client
+	for k := 0; k < 2; k++ {
+		name := string(rune('A' + k))
+		v := c53mk("only")
+		v.cport = 40000 + k
+		switch sign {
+		case "header":
+			js = `"header": ["X-Key"]`
+			v.hdrs = "X-Key: " + name + "\r\n"
+		case "clientip":
+			js = `"UseClientIP": true`
+			v.cip = c53ip(10, 0, 0, byte(1+k))
+		case "cookie":
+			js = `"Cookie": ["UID"]`
+			v.hdrs = "Cookie: UID=" + name + "\r\n"
+		case "query":
+			js = `"query": ["k"]`
+			v.target = "/p?k=" + name
+		default:
+			panic("c53: sign " + sign)
+		}
+		cl = append(cl, c53client{name: name, vars: []c53variant{v}})
+	}
+	return js, cl
+}
+
+// c53keyClients: per key recipe of the rule syntax, logical clients (pairwise different in key
+// material) and, per client, request variants that differ only in attributes outside the key.
+// The material of the OTHER clients is planted in non-key places of some variants.
+func c53keyClients(sign string) (string, []c53client) {
+	var cl []c53client
+	add := func(name string, vars ...c53variant) { cl = append(cl, c53client{name: name, vars: vars}) }
+	two := func(f func(me, other string) []c53variant, a, b string) {
+		add("A", f(a, b)...)
+		add("B", f(b, a)...)
+	}
+	switch sign {
+	case "clientip": // key = client IP address
+		ips := []net.IP{c53ip(10, 0, 0, 1), c53ip(10, 0, 0, 2)}
+		for k, ip := range ips {
+			ip, other := ip, ips[1-k]
+			set := func(v *c53variant) { v.cip = ip }
+			add(string(rune('A'+k)),
+				c53mk("base", set),
+				c53mk("new-source-port", set, c53newConn),
+				c53mk("port-0-via-proxy", set, c53viaProxy, func(v *c53variant) { v.cport = 0 }),
+				c53mk("via-proxy", set, c53viaProxy),
+				c53mk("ip-16-byte-form-other-request", func(v *c53variant) {
+					v.cip, v.cport, v.sid = ip.To16(), 40003, "conn-3"
+					v.target, v.host = "/other?x=1", "other.example"
+					v.hdrs = "X-Forwarded-For: " + other.String() + "\r\n"
+				}))
+		}
+		return `"UseClientIP": true`, cl
+	case "header": // key = value of one named header
+		two(func(me, other string) []c53variant {
+			return []c53variant{
+				c53mk("base", func(v *c53variant) { v.hdrs = "X-Key: " + me + "\r\n" }),
+				c53mk("lower-case-name", func(v *c53variant) { v.hdrs = "x-key: " + me + "\r\n" }),
+				c53mk("upper-case-name", func(v *c53variant) { v.hdrs = "X-KEY: " + me + "\r\n" }),
+				c53mk("extra-headers", func(v *c53variant) {
+					v.hdrs = "Accept: */*\r\nX-Key: " + me + "\r\nX-Other: " + other + "\r\n"
+				}),
+				c53mk("other-request", c53otherClient, func(v *c53variant) {
+					v.hdrs = "X-Key: " + me + "\r\n"
+					v.target, v.host = "/other?k="+other, "other.example"
+				}),
+			}
+		}, "A", "B")
+		return `"header": ["X-Key"]`, cl
+	case "cookie": // key = value of one named cookie
+		two(func(me, other string) []c53variant {
+			return []c53variant{
+				c53mk("base", func(v *c53variant) { v.hdrs = "Cookie: UID=" + me + "\r\n" }),
+				c53mk("cookie-last", func(v *c53variant) { v.hdrs = "Cookie: sid=" + other + "; UID=" + me + "\r\n" }),
+				c53mk("cookie-first", func(v *c53variant) { v.hdrs = "Cookie: UID=" + me + "; theme=" + other + "\r\n" }),
+				c53mk("other-request", c53otherClient, func(v *c53variant) {
+					v.hdrs = "cookie: UID=" + me + "\r\n"
+					v.target = "/other?UID=" + other
+				}),
+			}
+		}, "A", "B")
+		return `"Cookie": ["UID"]`, cl
+	case "query": // key = value of one named query parameter
+		two(func(me, other string) []c53variant {
+			return []c53variant{
+				c53mk("base", func(v *c53variant) { v.target = "/p?k=" + me }),
+				c53mk("param-last", func(v *c53variant) { v.target = "/p?x=" + other + "&k=" + me }),
+				c53mk("param-first", func(v *c53variant) { v.target = "/p?k=" + me + "&x=" + other }),
+				c53mk("other-request", c53otherClient, func(v *c53variant) {
+					v.target, v.host = "/other/path?k="+me, "other.example"
+					v.hdrs = "X-Key: " + other + "\r\n"
+				}),
+			}
+		}, "A", "B")
+		return `"query": ["k"]`, cl
+	case "host": // key = request host
+		two(func(me, other string) []c53variant {
+			return []c53variant{
+				c53mk("base", func(v *c53variant) { v.host = me }),
+				c53mk("other-path", func(v *c53variant) { v.host, v.target = me, "/x/y?host="+other }),
+				c53mk("extra-headers", func(v *c53variant) { v.host, v.hdrs = me, "X-Host: "+other+"\r\nAccept: */*\r\n" }),
+				c53mk("other-client", c53otherClient, c53viaProxy, func(v *c53variant) { v.host = me }),
+			}
+		}, "a.example", "b.example")
+		return `"UseHost": true`, cl
+	case "path": // key = request path
+		two(func(me, other string) []c53variant {
+			return []c53variant{
+				c53mk("base", func(v *c53variant) { v.target = me }),
+				c53mk("with-query", func(v *c53variant) { v.target = me + "?p=" + other }),
+				c53mk("other-host-and-headers", func(v *c53variant) {
+					v.target, v.host, v.hdrs = me, "other.example", "X-Path: "+other+"\r\n"
+				}),
+				c53mk("other-client", c53otherClient, func(v *c53variant) { v.target = me }),
+			}
+		}, "/pa", "/pb")
+		return `"UsePath": true`, cl
+	case "url": // key = request URI
+		two(func(me, other string) []c53variant {
+			return []c53variant{
+				c53mk("base", func(v *c53variant) { v.target = me }),
+				c53mk("other-host", func(v *c53variant) { v.target, v.host = me, "other.example" }),
+				c53mk("extra-headers", func(v *c53variant) { v.target, v.hdrs = me, "Referer: "+other+"\r\n" }),
+				c53mk("other-client", c53otherClient, c53viaProxy, func(v *c53variant) { v.target = me }),
+			}
+		}, "/p?u=A", "/p?u=B")
+		return `"UseUrl": true`, cl
+	case "urlregexp": // key = sub-matches of UrlRegexp in the request URI
+		two(func(me, other string) []c53variant {
+			return []c53variant{
+				c53mk("base", func(v *c53variant) { v.target = "/u/" + me }),
+				c53mk("longer-path", func(v *c53variant) { v.target = "/u/" + me + "/photos" }),
+				c53mk("with-query", func(v *c53variant) { v.target = "/u/" + me + "?x=" + other }),
+				c53mk("other-request", c53otherClient, func(v *c53variant) {
+					v.target, v.host = "/u/"+me+"/"+other, "other.example"
+				}),
+			}
+		}, "alice", "bob")
+		return `"UrlRegexp": "^/u/([a-z]+)"`, cl
+	case "allheaders": // key = all request header fields
+		two(func(me, other string) []c53variant {
+			h := "User-Agent: " + me + "\r\nAccept: */*\r\n"
+			return []c53variant{
+				c53mk("base", func(v *c53variant) { v.hdrs = h }),
+				c53mk("other-path", func(v *c53variant) { v.hdrs, v.target = h, "/other?ua="+other }),
+				c53mk("other-client", c53otherClient, c53viaProxy, func(v *c53variant) { v.hdrs = h }),
+			}
+		}, "ua-A", "ua-B")
+		return `"UseHeaders": true`, cl
+	case "clientip+cookie": // key = (client IP, cookie); B shares the IP with A, C the cookie
+		type ck struct {
+			n  string
+			ip net.IP
+			c  string
+		}
+		for _, x := range []ck{{"A", c53ip(10, 0, 0, 1), "a"}, {"B", c53ip(10, 0, 0, 1), "b"}, {"C", c53ip(10, 0, 0, 2), "a"}} {
+			x := x
+			add(x.n,
+				c53mk("base", func(v *c53variant) { v.cip, v.hdrs = x.ip, "Cookie: UID="+x.c+"\r\n" }),
+				c53mk("new-source-port-cookie-last", c53newConn, func(v *c53variant) {
+					v.cip, v.hdrs = x.ip, "Cookie: x=1; UID="+x.c+"\r\n"
+				}),
+				c53mk("via-proxy-other-path", c53viaProxy, func(v *c53variant) {
+					v.cip, v.hdrs, v.target = x.ip, "Cookie: UID="+x.c+"; y=2\r\n", "/other"
+				}))
+		}
+		return `"UseClientIP": true, "Cookie": ["UID"]`, cl
+	case "two-headers": // key = (X-Key, X-Tenant); B shares X-Key with A, C shares X-Tenant
+		for _, x := range [][3]string{{"A", "1", "1"}, {"B", "1", "2"}, {"C", "2", "1"}} {
+			x := x
+			add(x[0],
+				c53mk("base", func(v *c53variant) { v.hdrs = "X-Key: " + x[1] + "\r\nX-Tenant: " + x[2] + "\r\n" }),
+				c53mk("reversed-wire-order", func(v *c53variant) { v.hdrs = "X-Tenant: " + x[2] + "\r\nX-Key: " + x[1] + "\r\n" }),
+				c53mk("lower-case-extra-header-other-client", c53otherClient, func(v *c53variant) {
+					v.hdrs = "x-key: " + x[1] + "\r\nAccept: */*\r\nx-tenant: " + x[2] + "\r\n"
+				}))
+		}
+		return `"header": ["X-Key", "X-Tenant"]`, cl
+	case "socketip": // key = address of the socket peer
+		for k := 0; k < 2; k++ {
+			ip := c53ip(10, 1, 0, byte(1+k))
+			set := func(v *c53variant) { v.cip = ip }
+			add(string(rune('A'+k)),
+				c53mk("base", set),
+				c53mk("new-source-port", set, c53newConn),
+				c53mk("other-request", set, func(v *c53variant) { v.target, v.hdrs = "/other?x=1", "Accept: */*\r\n" }))
+		}
+		return `"UseSocketIP": true`, cl
+	case "connectid": // key = connection (session) id; both connections come from one client IP
+		for k := 0; k < 2; k++ {
+			sid, port := "conn-"+string(rune('A'+k)), 40001+k
+			set := func(v *c53variant) { v.sid, v.cport = sid, port }
+			add(string(rune('A'+k)),
+				c53mk("base", set),
+				c53mk("other-path", set, func(v *c53variant) { v.target = "/other?x=1" }),
+				c53mk("extra-headers", set, func(v *c53variant) { v.hdrs = "Accept: */*\r\nX-Key: 1\r\n" }))
+		}
+		return `"UseConnectID": true`, cl
+	}
+	panic("c53: key recipe " + sign)
+}
+
+var c53keyRecipes = []string{"clientip", "header", "cookie", "query", "host", "path", "url", "urlregexp",
+	"allheaders", "clientip+cookie", "two-headers", "socketip", "connectid"}
+
+func c53ms(ms ...int64) []int64 {
+	out := make([]int64, len(ms))
+	for i, m := range ms {
+		out[i] = m * int64(time.Millisecond)
+	}
+	return out
 }
 
 func c53configs(thorough bool) []*c53cfg {
 	var out []*c53cfg
+	offsT := c53ms(0, 1000, 9900, 10000, 10100, 30000, 40100)
+	if thorough {
+		offsT = c53ms(0, 1000, 9900, 10000, 10100, 20000, 30000, 40000, 40100, 50100)
+	}
+	offsK := c53ms(0, 1000, 40100)
+	fin := func(c *c53cfg) {
+		for i, cl := range c.clients {
+			for j := range cl.vars {
+				v := &c.clients[i].vars[j]
+				if v.rip == nil {
+					v.rip, v.rport = v.cip, v.cport
+				}
+				v.raw = "GET " + v.target + " HTTP/1.1\r\nHost: " + v.host + "\r\n" + v.hdrs + "\r\n"
+				c.pairs = append(c.pairs, [2]int{i, j})
+			}
+		}
+		out = append(out, c)
+	}
 	add := func(th int32, stay int64, sign, action, product string, depth int) {
-		out = append(out, &c53cfg{
+		c := &c53cfg{part: "time",
 			name:      fmt.Sprintf("T%d-P10-S%d-%s-%s-%s", th, stay, sign, action, product),
-			threshold: th, check: 10, stay: stay, sign: sign, action: action, product: product, depth: depth})
+			threshold: th, check: 10, stay: stay, sign: sign, action: action, product: product, depth: depth, offs: offsT}
+		c.signJSON, c.clients = c53timeClients(sign)
+		fin(c)
+	}
+	addKey := func(th int32, sign string, depth int) {
+		c := &c53cfg{part: "key", name: fmt.Sprintf("K-T%d-P10-S30-%s", th, sign),
+			threshold: th, check: 10, stay: 30, sign: sign, action: "CLOSE", product: "pA", depth: depth, offs: offsK}
+		c.signJSON, c.clients = c53keyClients(sign)
+		fin(c)
 	}
 	if !thorough {
 		add(1, 30, "header", "CLOSE", "pA", 6)
 		add(2, 30, "header", "CLOSE", "pA", 6)
+		for _, k := range c53keyRecipes {
+			addKey(1, k, 3)
+		}
 		return out
 	}
 	for _, th := range []int32{1, 2} {
@@ -131,18 +409,10 @@ func c53configs(thorough bool) []*c53cfg {
 	}
 	add(0, 30, "header", "CLOSE", "pA", 6)
 	add(3, 30, "header", "CLOSE", "pA", 6)
-	return out
-}
-
-// offsets in nanoseconds from the start of the bubble
-func c53offsets(thorough bool) []int64 {
-	ms := []int64{0, 1000, 9900, 10000, 10100, 30000, 40100}
-	if thorough {
-		ms = []int64{0, 1000, 9900, 10000, 10100, 20000, 30000, 40000, 40100, 50100}
-	}
-	out := make([]int64, len(ms))
-	for i, m := range ms {
-		out[i] = m * int64(time.Millisecond)
+	for _, th := range []int32{1, 2} {
+		for _, k := range c53keyRecipes {
+			addKey(th, k, 4)
+		}
 	}
 	return out
 }
@@ -158,8 +428,6 @@ type c53mod struct {
 	rulePath string
 	nonePath string
 	conf     ProductRuleConf // the rule file as parsed and checked by productRuleConfLoad
-	raw      [2]string       // raw request bytes per key
-	ip       [2]net.IP
 }
 
 func c53write(t *testing.T, p, content string) {
@@ -174,7 +442,7 @@ func c53write(t *testing.T, p, content string) {
 // c53setup builds one real module for one configuration (outside any bubble: metrics.Init
 // starts a perpetual goroutine).
 func c53setup(t *testing.T, dir string, cf *c53cfg) *c53mod {
-	root := filepath.Join(dir, cf.name)
+	root := filepath.Join(dir, strings.ReplaceAll(cf.name, "+", "_"))
 	c53write(t, filepath.Join(root, "mod_prison", "mod_prison.conf"),
 		"[basic]\nProductRulePath = mod_prison/prison.data\n\n[log]\nOpenDebug = false\n")
 	s := &c53mod{cf: cf}
@@ -206,23 +474,6 @@ func c53setup(t *testing.T, dir string, cf *c53cfg) *c53mod {
 	if s.conf, err = productRuleConfLoad(s.rulePath); err != nil {
 		t.Fatalf("c53: productRuleConfLoad: %v", err)
 	}
-
-	for k := 0; k < 2; k++ {
-		name := string(rune('A' + k))
-		target, hdr := "/p", ""
-		s.ip[k] = net.IPv4(10, 0, 0, 9).To4()
-		switch cf.sign {
-		case "header":
-			hdr = "X-Key: " + name + "\r\n"
-		case "clientip":
-			s.ip[k] = net.IPv4(10, 0, 0, byte(1+k)).To4()
-		case "cookie":
-			hdr = "Cookie: UID=" + name + "\r\n"
-		case "query":
-			target = "/p?k=" + name
-		}
-		s.raw[k] = "GET " + target + " HTTP/1.1\r\nHost: example.org\r\n" + hdr + "\r\n"
-	}
 	return s
 }
 
@@ -247,24 +498,25 @@ func (s *c53mod) fresh(t *testing.T, viaFiles bool) {
 	}
 }
 
-func (s *c53mod) request(t *testing.T, key int) *bfe_basic.Request {
-	hr, err := bfe_http.ReadRequest(bfe_bufio.NewReaderSize(strings.NewReader(s.raw[key]), 512), 65536)
+func (s *c53mod) request(t *testing.T, v *c53variant) *bfe_basic.Request {
+	hr, err := bfe_http.ReadRequest(bfe_bufio.NewReaderSize(strings.NewReader(v.raw), 512), 65536)
 	if err != nil {
-		t.Fatalf("c53: ReadRequest: %v", err)
+		t.Fatalf("c53: ReadRequest(%q): %v", v.raw, err)
 	}
 	sess := bfe_basic.NewSession(nil)
-	sess.RemoteAddr = &net.TCPAddr{IP: s.ip[key], Port: 40000 + key}
+	sess.SessionId = v.sid
+	sess.RemoteAddr = &net.TCPAddr{IP: v.rip, Port: v.rport}
 	hr.RemoteAddr = sess.RemoteAddr.String()
 	req := bfe_basic.NewRequest(hr, nil, nil, sess, nil)
 	req.Route.Product = c53reqProduct
-	req.ClientAddr = sess.RemoteAddr
+	req.ClientAddr = &net.TCPAddr{IP: v.cip, Port: v.cport}
 	return req
 }
 
 // arrive sends one request of the key through the real handler chain; denied = the rule's
 // action was applied to this request.
-func (s *c53mod) arrive(t *testing.T, key int) (denied bool) {
-	req := s.request(t, key)
+func (s *c53mod) arrive(t *testing.T, v *c53variant) (denied bool) {
+	req := s.request(t, v)
 	ret, _ := s.found.FilterRequest(req)
 	switch s.cf.action {
 	case "CLOSE":
@@ -367,7 +619,8 @@ func c53step(s c53st, t int64, p c53par, out []c53br) []c53br {
 
 type c53arr struct {
 	off    int64
-	key    int
+	key    int // logical client
+	vname  string
 	denied bool
 	want   string // what the reference admitted
 	note   string
@@ -404,7 +657,11 @@ func c53fmtTimeline(arr []c53arr) string {
 		if a.denied {
 			v = "DENIED"
 		}
-		fmt.Fprintf(&sb, "t=%.1fs key=%c %s (ref: %s)", float64(a.off)/1e9, 'A'+a.key, v, a.want)
+		who := string(rune('A' + a.key))
+		if a.vname != "only" {
+			who += "[" + a.vname + "]"
+		}
+		fmt.Fprintf(&sb, "t=%.1fs key=%s %s (ref: %s)", float64(a.off)/1e9, who, v, a.want)
 		if a.note != "" {
 			sb.WriteString(" <== " + a.note)
 		}
@@ -415,19 +672,21 @@ func c53fmtTimeline(arr []c53arr) string {
 // c53run executes one timeline on the real module in a fresh bubble and judges every arrival;
 // outcome counters and violation reports are only fed for arrivals with isNew(i) (arrivals not
 // already counted by an earlier execution sharing the prefix).
-func c53run(t *testing.T, r *vk.Run, s *c53mod, offs []int64, tl []int, id string, viaFiles bool, isNew func(i int) bool) (ex c53exec) {
+func c53run(t *testing.T, r *vk.Run, s *c53mod, tl []int, id string, viaFiles bool, isNew func(i int) bool) (ex c53exec) {
 	cf := s.cf
+	offs, M := cf.offs, len(cf.pairs)
 	par := c53par{T: cf.threshold, P: cf.check * int64(time.Second), S: cf.stay * int64(time.Second)}
 	synctest.Test(t, func(t *testing.T) {
 		s.fresh(t, viaFiles)
 		t0 := time.Now()
-		var ref [2]c53keyRef
+		ref := make([]c53keyRef, len(cf.clients))
 		for k := range ref {
 			ref[k].states = []c53st{{mode: c53Idle}}
 		}
 		var brs []c53br
 		for i, sym := range tl {
-			off, key := offs[sym/2], sym%2
+			off, key := offs[sym/M], cf.pairs[sym%M][0]
+			va := &cf.clients[key].vars[cf.pairs[sym%M][1]]
 			if d := off - int64(time.Since(t0)); d > 0 {
 				time.Sleep(time.Duration(d))
 			}
@@ -435,14 +694,14 @@ func c53run(t *testing.T, r *vk.Run, s *c53mod, offs []int64, tl []int, id strin
 				t.Fatalf("c53: fake clock at %d, want %d", got, off)
 			}
 			var denied bool
-			if panicked, val := vk.Guard(func() { denied = s.arrive(t, key) }); panicked {
+			if panicked, val := vk.Guard(func() { denied = s.arrive(t, va) }); panicked {
 				r.Violation("panic:"+vk.PanicSite(val), id, fmt.Sprintf("cfg %s arrival %d of %s: %s", cf.name, i, c53fmtTimeline(ex.arr), val))
 				return
 			}
 			if denied {
 				ex.anyDeny = true
 			}
-			a := c53arr{off: off, key: key, denied: denied}
+			a := c53arr{off: off, key: key, vname: va.name, denied: denied}
 			kr := &ref[key]
 			kr.times = append(kr.times, off)
 			if kr.lost {
@@ -496,8 +755,10 @@ func c53run(t *testing.T, r *vk.Run, s *c53mod, offs []int64, tl []int, id strin
 			if !ok {
 				// classify
 				otherJailed := "other-key-never-jailed"
-				if ref[1-key].jailed {
-					otherJailed = "other-key-jailed-before"
+				for k := range ref {
+					if k != key && ref[k].jailed {
+						otherJailed = "other-key-jailed-before"
+					}
 				}
 				var sig string
 				if denied {
@@ -525,14 +786,22 @@ func c53run(t *testing.T, r *vk.Run, s *c53mod, offs []int64, tl []int, id strin
 					}
 					sig = "denied-until-release:" + cls + ":" + otherJailed + ":allowed"
 				}
+				if cf.part == "key" {
+					// key derivation space: which recipe, which direction, which request shape
+					if denied {
+						sig = "key:" + cf.sign + ":denied-below-threshold:" + va.name
+					} else {
+						sig = "key:" + cf.sign + ":same-key-not-counted:" + va.name
+					}
+				}
 				a.note = "VIOLATION " + sig
 				ex.arr = append(ex.arr, a)
 				kr.lost = true
 				if !isNew(i) {
 					continue // already reported by the execution that first reached this prefix
 				}
-				r.Violation(sig, id, fmt.Sprintf("cfg %s (Threshold %d, CheckPeriod %ds, StayPeriod %ds, key by %s, action %s): %s",
-					cf.name, cf.threshold, cf.check, cf.stay, cf.sign, cf.action, c53fmtTimeline(ex.arr)))
+				r.Violation(sig, id, fmt.Sprintf("cfg %s (Threshold %d, CheckPeriod %ds, StayPeriod %ds, accessSignConf {%s}, action %s): %s",
+					cf.name, cf.threshold, cf.check, cf.stay, cf.signJSON, cf.action, c53fmtTimeline(ex.arr)))
 				continue
 			}
 			// keep the successors consistent with what the implementation did
@@ -563,9 +832,9 @@ func c53run(t *testing.T, r *vk.Run, s *c53mod, offs []int64, tl []int, id strin
 						r.Outcome("either-admissible:allowed")
 					}
 				case denied:
-					r.Outcome("deny:" + tag)
+					r.Outcome(cf.part + ":deny:" + tag)
 				default:
-					r.Outcome("allow:" + tag)
+					r.Outcome(cf.part + ":allow:" + tag)
 				}
 			}
 			ex.arr = append(ex.arr, a)
@@ -593,20 +862,17 @@ func TestVerifC53(t *testing.T) {
 	}
 
 	thorough := r.Thorough()
-	offs := c53offsets(thorough)
 	cfgs := c53configs(thorough)
-	nsym := 2 * len(offs)
-	r.Set("bounds", fmt.Sprintf("per configuration: all timelines of exactly <depth> arrivals (all shorter ones as prefixes) over %d offsets x keys {A,B}, offsets non-decreasing, repeats allowed; %d configurations", len(offs), len(cfgs)))
+	r.Set("bounds", "per configuration: all timelines of exactly <depth> arrivals (all shorter ones as prefixes) over offsets x (logical client, request variant), offsets non-decreasing, repeats allowed")
 	var names []string
 	for _, c := range cfgs {
-		names = append(names, fmt.Sprintf("%s depth=%d", c.name, c.depth))
+		offS := make([]string, len(c.offs))
+		for i, o := range c.offs {
+			offS[i] = fmt.Sprintf("%g", float64(o)/1e9)
+		}
+		names = append(names, fmt.Sprintf("%s depth=%d offsets_s=[%s] clients=%d request_shapes=%d", c.name, c.depth, strings.Join(offS, " "), len(c.clients), len(c.pairs)))
 	}
 	r.Set("configurations", names)
-	offS := make([]float64, len(offs))
-	for i, o := range offs {
-		offS[i] = float64(o) / 1e9
-	}
-	r.Set("offsets_s", offS)
 
 	item := 0
 	stop := false
@@ -614,9 +880,11 @@ func TestVerifC53(t *testing.T) {
 	for _, cf := range cfgs {
 		var mod *c53mod // built lazily: only when this shard owns an item of the configuration
 		N := cf.depth
+		M := len(cf.pairs)
+		nsym := M * len(cf.offs)
 		firstItemOfCfg := true
 		for a := 0; a < nsym && !stop; a++ {
-			for b := (a / 2) * 2; b < nsym && !stop; b++ {
+			for b := (a / M) * M; b < nsym && !stop; b++ {
 				item++
 				rootHere := firstItemOfCfg
 				firstItemOfCfg = false
@@ -626,7 +894,7 @@ func TestVerifC53(t *testing.T) {
 				if mod == nil {
 					mod = c53setup(t, dir, cf)
 				}
-				firstB := b == (a/2)*2
+				firstB := b == (a/M)*M
 				tl := make([]int, N)
 				tl[0], tl[1] = a, b
 				prev := make([]int, N)
@@ -637,7 +905,7 @@ func TestVerifC53(t *testing.T) {
 						return
 					}
 					if d < N {
-						for s := (tl[d-1] / 2) * 2; s < nsym; s++ {
+						for s := (tl[d-1] / M) * M; s < nsym; s++ {
 							tl[d] = s
 							rec(d + 1)
 						}
@@ -672,7 +940,7 @@ func TestVerifC53(t *testing.T) {
 							return fl && firstB
 						}
 					}
-					ex := c53run(t, r, mod, offs, tl, id(), fl || r.Replaying(), isNew)
+					ex := c53run(t, r, mod, tl, id(), fl || r.Replaying(), isNew)
 					nNew := int64(0)
 					for i := 0; i < N; i++ {
 						if isNew(i) {
